@@ -11,6 +11,7 @@ import (
 
 func (x *Exec) instr(fr *Frame, st *State, in ssa.Instruction) {
 	vc := x.vc
+	fr.curInstr = in
 	switch i := in.(type) {
 	case *ssa.DebugRef:
 		return
@@ -128,7 +129,7 @@ func (x *Exec) instr(fr *Frame, st *State, in ssa.Instruction) {
 	case *ssa.MakeChan:
 		id := x.allocID(st)
 		fr.regs[i] = Val{T: id}
-		x.atSite(fr, st, "makechan", fr.nextOrd("makechan"), map[string]Val{"ch": {T: id}}, nil)
+		x.atSite(fr, st, "makechan", fr.siteOrd("makechan", i), map[string]Val{"ch": {T: id}}, nil)
 	case *ssa.Lookup:
 		x.lookup(fr, st, i)
 	case *ssa.MapUpdate:
@@ -153,7 +154,7 @@ func (x *Exec) instr(fr *Frame, st *State, in ssa.Instruction) {
 	case *ssa.Send:
 		ch := x.term(fr, st, x.value(fr, st, i.Chan))
 		v := x.term(fr, st, x.value(fr, st, i.X))
-		x.atSite(fr, st, "send", fr.nextOrd("send"), map[string]Val{"ch": {T: ch}, "msg": {T: v}}, map[string]types.Type{"ch": i.Chan.Type(), "msg": i.X.Type()})
+		x.atSite(fr, st, "send", fr.siteOrd("send", i), map[string]Val{"ch": {T: ch}, "msg": {T: v}}, map[string]types.Type{"ch": i.Chan.Type(), "msg": i.X.Type()})
 	case *ssa.Go:
 		x.spawn(fr, st, i)
 	case *ssa.Defer:
@@ -265,7 +266,7 @@ func (x *Exec) unop(fr *Frame, st *State, i *ssa.UnOp) {
 			r = msg
 		}
 		fr.regs[i] = r
-		x.atSite(fr, st, "recv", fr.nextOrd("recv"), map[string]Val{"ch": {T: ch}, "msg": msg}, map[string]types.Type{"ch": i.X.Type(), "msg": et})
+		x.atSite(fr, st, "recv", fr.siteOrd("recv", i), map[string]Val{"ch": {T: ch}, "msg": msg}, map[string]types.Type{"ch": i.X.Type(), "msg": et})
 	default:
 		x.abstractInstr(fr, st, i)
 	}
@@ -705,7 +706,7 @@ func (x *Exec) selectOp(fr *Frame, st *State, i *ssa.Select) {
 	}
 	vc.assume(st.pc, fmt.Sprintf("(and (<= %s %s) (< %s %d))", lo, idx, idx, len(i.States)))
 	vs := []Val{{T: idx}, {T: vc.freshConst("recvok", "Bool")}}
-	ord := fr.nextOrd("select")
+	ord := fr.siteOrd("select", i)
 	for k, s := range i.States {
 		ch := x.term(fr, st, x.value(fr, st, s.Chan))
 		if s.Dir == types.RecvOnly {
@@ -715,14 +716,31 @@ func (x *Exec) selectOp(fr *Frame, st *State, i *ssa.Select) {
 			sub := st.clone()
 			sub.pc = fmt.Sprintf("(and %s (= %s %d))", st.pc, idx, k)
 			x.atSite(fr, sub, fmt.Sprintf("select%d.recv", ord), k, map[string]Val{"ch": {T: ch}, "msg": msg}, map[string]types.Type{"ch": s.Chan.Type(), "msg": et})
+			x.ghostBack(st, sub, fmt.Sprintf("(= %s %d)", idx, k))
 		} else {
 			msg := x.term(fr, st, x.value(fr, st, s.Send))
 			sub := st.clone()
 			sub.pc = fmt.Sprintf("(and %s (= %s %d))", st.pc, idx, k)
 			x.atSite(fr, sub, fmt.Sprintf("select%d.send", ord), k, map[string]Val{"ch": {T: ch}, "msg": {T: msg}}, map[string]types.Type{"ch": s.Chan.Type(), "msg": s.Send.Type()})
+			x.ghostBack(st, sub, fmt.Sprintf("(= %s %d)", idx, k))
 		}
 	}
 	fr.regs[i] = Val{Tup: vs}
+}
+
+// ghostBack merges ghost updates made under a case-restricted view back
+// into the main state.
+func (x *Exec) ghostBack(st, sub *State, cond string) {
+	for g, v := range sub.ghost {
+		old, ok := st.ghost[g]
+		if ok && old == v {
+			continue
+		}
+		if !ok {
+			continue
+		}
+		st.ghost[g] = fmt.Sprintf("(ite %s %s %s)", cond, v, old)
+	}
 }
 
 func (x *Exec) runDefers(fr *Frame, st *State) {
